@@ -1,6 +1,7 @@
 import Logrange.Proofs.TruncateSort
 /-! DRYRUN announces what the run does — the whole command, any two visiting orders. -/
 namespace Logrange.Truncate
+variable {acct : Bool}
 
 /-! ### phase I as three independent passes over the visiting order -/
 
@@ -148,8 +149,8 @@ theorem Ascending_drop (cks : List Chunk) (n : Nat) (h : Ascending cks) : Ascend
 
 theorem globalLoop_sim (strict : Bool) (p : Params) : ∀ (rest : List Info) (ts : Nat) (D R : List Part),
     (rest.map (·.src)).Nodup → (∀ ti ∈ rest, Linked D R ti) →
-    (globalLoop strict 0 1 { p with dryRun := true } rest ts D).1 =
-      (globalLoop strict 0 1 { p with dryRun := false } rest ts R).1 := by
+    (globalLoop acct strict 0 1 { p with dryRun := true } rest ts D).1 =
+      (globalLoop acct strict 0 1 { p with dryRun := false } rest ts R).1 := by
   intro rest
   induction rest with
   | nil => intro ts D R _ _; simp [globalLoop]
@@ -186,6 +187,7 @@ theorem globalLoop_sim (strict : Bool) (p : Params) : ∀ (rest : List Info) (ts
 end Logrange.Truncate
 
 namespace Logrange.Truncate
+variable {acct : Bool}
 
 /-! ### DRYRUN = run, phase I, one partition (generic in the comparison operator) -/
 
@@ -258,8 +260,8 @@ deleted flags) are the run's reports. -/
 theorem dryrun_equals_run (strict : Bool) (p : Params) (o1 o2 : List Part) (hp : o1.Perm o2)
     (hnd : (o1.map (·.src)).Nodup)
     (hq : ∀ q ∈ o1, q.users = 0 ∧ Ascending q.chunks ∧ WellSized q) :
-    ∀ r, r ∈ (run strict 0 1 { p with dryRun := true } o1).reports ↔
-         r ∈ (run strict 0 1 { p with dryRun := false } o2).reports := by
+    ∀ r, r ∈ (run acct strict 0 1 { p with dryRun := true } o1).reports ↔
+         r ∈ (run acct strict 0 1 { p with dryRun := false } o2).reports := by
   have hnd2 : (o2.map (·.src)).Nodup := (hp.map _).nodup_iff.mp hnd
   have hq2 : ∀ q ∈ o2, q.users = 0 ∧ Ascending q.chunks ∧ WellSized q := fun q h => hq q (hp.mem_iff.mpr h)
   -- per partition, the two phase-I calls agree on what they report and on the entry for the sorted list
@@ -285,7 +287,7 @@ theorem dryrun_equals_run (strict : Bool) (p : Params) (o1 o2 : List Part) (hp :
   generalize hIdef : sortInfos (o1.filterMap (fun q => (phase1Part strict { p with dryRun := true } q).info)) = I at *
   -- the pass: dry run on the untouched partitions vs run on the reduced ones
   have hndI' : (I.map (·.src)).Nodup := (hIperm.map _).nodup_iff.mpr hndI
-  have hsim := globalLoop_sim strict p I (totalAfter I)
+  have hsim := globalLoop_sim (acct := acct) strict p I (totalAfter I)
     (o1.filterMap (fun q => (phase1Part strict { p with dryRun := true } q).part))
     (o2.filterMap (fun q => (phase1Part strict { p with dryRun := false } q).part)) hndI' (by
       intro ti hti ha
@@ -315,6 +317,7 @@ theorem dryrun_equals_run (strict : Bool) (p : Params) (o1 o2 : List Part) (hp :
 end Logrange.Truncate
 
 namespace Logrange.Truncate
+variable {acct : Bool}
 
 /-! ### the MAXDBSIZE pass takes the front of the sorted list and stops as soon as the total fits -/
 
@@ -326,8 +329,8 @@ def passLen (maxDB : Nat) : List Info → Nat → Nat
 
 theorem globalLoop_dry_front (strict : Bool) (gMin gMax : Nat) (p : Params) (hd : p.dryRun = true) (db : List Part) :
     ∀ (I : List Info) (ts : Nat), (∀ ti ∈ I, 0 < ti.after → (dbFind db ti.src).isSome = true) →
-      (∀ x ∈ (globalLoop strict gMin gMax p I ts db).1.take (passLen p.maxDB I ts), x.after = 0) ∧
-      (globalLoop strict gMin gMax p I ts db).1.drop (passLen p.maxDB I ts) = I.drop (passLen p.maxDB I ts) := by
+      (∀ x ∈ (globalLoop acct strict gMin gMax p I ts db).1.take (passLen p.maxDB I ts), x.after = 0) ∧
+      (globalLoop acct strict gMin gMax p I ts db).1.drop (passLen p.maxDB I ts) = I.drop (passLen p.maxDB I ts) := by
   intro I
   induction I with
   | nil => intro ts _; simp [globalLoop, passLen]
